@@ -133,7 +133,12 @@ def r1(ctx):
     okd = (dom.get("K0") == "len(kernels)" and dom.get("K1") == "len(kernels[0])" and dom.get("K2") == "len(kernels[0][0])" and dom.get("K3") == "len(kernels[0][0][0])"
            and dom.get("X1") == "len(x[0])" and dom.get("X2") == "len(x[0][0])" and all(str(l[2]) == "0" and l[4] is None for l in f.loops))
     ctx.check("R02.1", "deconvolution:domain", okd, "domain:" + str(sorted(dom.items())), where, "every loop covers its whole dimension")
-    # ---- max-pool
+    maxpool_forward(ctx, "R02.1")
+
+def maxpool_forward(ctx, rule="R02.1"):
+    """Maxpool::forward keeps a strict running maximum over the window x[c][h+k][w+l] (k < kernel.0, l < kernel.1) starting from f32::MIN and
+    records the position (h+k, w+l) of the element that set it (shared with C01: the backward pass routes gradients to these positions)."""
+    c = ctx.crate
     fn = ctx.fn("maxpool::Maxpool::forward")
     ex = mac.extract(c, fn)
     # the running maximum is the mutable scalar that is finally stored into the f32 output buffer
@@ -177,14 +182,14 @@ def r1(ctx):
         okr = [str(i) for i in r.idx] == [cvar, str(Rat.atom(hvar) + Rat.atom(kvar)), str(Rat.atom(lvar) + Rat.atom(wvar))]
         kdom = str(v.loops[3][3]) == "self.kernel.0" and str(v.loops[4][3]) == "self.kernel.1"
         okr = okr and kdom
-    ctx.check("R02.1", "maxpool:window", okr, "window:" + (repr(rd[0]) if rd else "?"), where, "window element x[c][h+k][w+l], k < kernel.0, l < kernel.1")
+    ctx.check(rule, "maxpool:window", okr, "window:" + (repr(rd[0]) if rd else "?"), where, "window element x[c][h+k][w+l], k < kernel.0, l < kernel.1")
     strict = [g for g in v.guards if str(g).startswith("gt0(") and (vname + "#") in str(g)]
     acc_atom = [a for a, r_ in v.reads.items()]
     ok_strict = len(strict) == 1
     if ok_strict:
         hid = v.target[1]
         ok_strict = str(strict[0]) == e1.cmp_atom("Gt", Rat.atom(acc_atom[0]), Rat.atom("%s#%d" % (vname, hid)))
-    ctx.check("R02.1", "maxpool:strict-running-maximum", ok_strict and str(ex.acc_init.get(v.target[1])).endswith("::MIN"), "max-update:" + ";".join(str(g) for g in v.guards)[:100], where,
+    ctx.check(rule, "maxpool:strict-running-maximum", ok_strict and str(ex.acc_init.get(v.target[1])).endswith("::MIN"), "max-update:" + ";".join(str(g) for g in v.guards)[:100], where,
               "value updated iff x > value, starting from f32::MIN", "update guards %s, initial %s" % ([str(g) for g in v.guards], ex.acc_init.get(v.target[1])))
     i = idxs[0]
     oki = False
@@ -193,7 +198,8 @@ def r1(ctx):
                and all([str(g) for g in q_.guards] == [str(g) for g in v.guards] for q_ in pair_form))
     elif okr:
         oki = str(i.rhs) == str(e1.fn_atom("tup", Rat.atom(hvar) + Rat.atom(kvar), Rat.atom(lvar) + Rat.atom(wvar))) and [str(g) for g in i.guards] == [str(g) for g in v.guards]
-    ctx.check("R02.1", "maxpool:argmax-recorded", oki, "argmax:" + str(i.rhs), c.loc(fn, i.node), "index = (h+k, w+l) under the same guard")
+    ctx.check(rule, "maxpool:argmax-recorded", oki, "argmax:" + str(i.rhs), c.loc(fn, i.node), "index = (h+k, w+l) under the same guard")
+
 
 
 def _acc_hid(ex, stmt):
